@@ -178,4 +178,125 @@ theorem setup_cells_from (K1 K2 K3 K4 : Bytes) (db : DB) (t t' : Tape) (edb : SS
           obtain ⟨e1, e2⟩ := encDb_stamped cfg lv K1 K2 K3 db 1 _ [] t A T t1 hr t (Suffix.refl _) h0
           exact fillA_from _ A t2 A' t3 hr3 t ((cipher_suffix hr2).trans e2) e1
 
+
+/-! ### the look-up table `T` -/
+
+/-- an entry of `T`: the label is π_K3 of a stored keyword and the value is `(address ‖ key)` masked with the PRF output
+    `F_K2(keyword)` — or both are random draws of the run (a filler) -/
+def TEntry (K2 K3 : Bytes) (db : DB) (t : Tape) (p : Bytes × Bytes) : Prop :=
+  (∃ w ids x eta, (w, ids) ∈ db ∧ piBytes cfg lv K3 w = .ok p.1 ∧
+      cfg.prfF.call lv.hmac K2 (addLeadingZeros w cfg.l) = .ok eta ∧ bytesXor x eta = .ok p.2) ∨
+  (Draw.bytes p.1 ∈ t ∧ Draw.bytes p.2 ∈ t)
+
+theorem encDb_table (K1 K2 K3 : Bytes) (db0 db : DB) (hsub : ∀ q ∈ db, q ∈ db0) (ctr : Nat) (A : List Bytes) (T : Table) (t : Tape)
+    (A' : List Bytes) (T' : Table) (t' : Tape) (h : encDb cfg lv K1 K2 K3 db ctr A T t = .ok (A', T', t'))
+    (t0 : Tape) (hT : ∀ p ∈ T, TEntry cfg lv K2 K3 db0 t0 p) : ∀ p ∈ T', TEntry cfg lv K2 K3 db0 t0 p := by
+  induction db generalizing ctr A T t with
+  | nil => simp [encDb] at h; obtain ⟨_, rfl, _⟩ := h; exact hT
+  | cons q rest ih =>
+    obtain ⟨w0, ids0⟩ := q
+    simp only [encDb, bind, Except.bind] at h
+    split at h
+    · cases h
+    · rename_i r hr
+      obtain ⟨k0, t1⟩ := r
+      simp only at h
+      split at h
+      · cases h
+      · rename_i r2 hr2
+        obtain ⟨lastKey, ctr1, first, A1, t2⟩ := r2
+        simp only at h
+        split at h
+        · cases h
+        · split at h
+          · cases h
+          · split at h
+            · cases h
+            · rename_i r3 hr3
+              obtain ⟨c, t3⟩ := r3
+              simp only at h
+              split at h
+              · cases h
+              · split at h
+                · cases h
+                · rename_i gamma hgam
+                  split at h
+                  · cases h
+                  · rename_i eta heta
+                    split at h
+                    · cases h
+                    · rename_i fb hfb
+                      split at h
+                      · cases h
+                      · rename_i theta hth
+                        refine ih (fun q hq => hsub q (List.mem_cons_of_mem _ hq)) _ _ _ _ h ?_
+                        intro p hp
+                        rcases mem_tinsert T gamma theta p hp with h1 | h1
+                        · exact hT p h1
+                        · subst h1
+                          exact Or.inl ⟨w0, ids0, _, eta, hsub _ (by simp), hgam, heta, hth⟩
+
+theorem fillT_table (K2 K3 : Bytes) (db : DB) (l out n : Nat) (T : Table) (t : Tape) (T' : Table) (t' : Tape)
+    (h : fillT l out n T t = .ok (T', t')) (t0 : Tape) (hs : Suffix t t0) (hT : ∀ p ∈ T, TEntry cfg lv K2 K3 db t0 p) :
+    ∀ p ∈ T', TEntry cfg lv K2 K3 db t0 p := by
+  induction n generalizing T t with
+  | zero => simp [fillT] at h; obtain ⟨rfl, _⟩ := h; exact hT
+  | succ m ih =>
+    simp only [fillT, bind, Except.bind] at h
+    split at h
+    · cases h
+    · rename_i r hr
+      obtain ⟨v, t1⟩ := r
+      simp only at h
+      split at h
+      · cases h
+      · rename_i r2 hr2
+        obtain ⟨k, t2⟩ := r2
+        simp only at h
+        have hs1 : Suffix t1 t0 := (takeBytes_suffix hr).trans hs
+        refine ih _ _ h ((takeBytes_suffix hr2).trans hs1) ?_
+        intro p hp
+        rcases mem_tinsert T k v p hp with h1 | h1
+        · exact hT p h1
+        · subst h1
+          right
+          obtain ⟨pre, rfl⟩ := hs
+          obtain ⟨pre1, e1⟩ := takeBytes_suffix hr
+          refine ⟨?_, ?_⟩
+          · have : Draw.bytes k ∈ t1 := by rw [takeBytes_cons hr2]; simp
+            rw [e1]; simp [this]
+          · rw [takeBytes_cons hr]; simp
+
+/-- SSE-1: every entry of the look-up table of the index `Setup` returns is `(π_K3(w), (first address ‖ first key) ⊕ F_K2(w))`
+    for a stored keyword `w`, or a pair of random draws of the run -/
+theorem setup_table_from (K1 K2 K3 K4 : Bytes) (db : DB) (t t' : Tape) (edb : SSE1EDB)
+    (hs : setup cfg lv [K1, K2, K3, K4] db t = .ok (edb, t')) : ∀ p ∈ edb.T, TEntry cfg lv K2 K3 db t p := by
+  simp only [setup, bind, Except.bind] at hs
+  split at hs
+  · cases hs
+  · rename_i r hr
+    obtain ⟨A, T, t1⟩ := r
+    simp only at hs
+    split at hs
+    · cases hs
+    · rename_i r2 hr2
+      obtain ⟨probe, t2⟩ := r2
+      simp only at hs
+      split at hs
+      · cases hs
+      · rename_i r3 hr3
+        obtain ⟨A', t3⟩ := r3
+        simp only at hs
+        split at hs
+        · cases hs
+        · rename_i r4 hr4
+          obtain ⟨T', t4⟩ := r4
+          simp only [pure, Except.pure] at hs
+          cases hs
+          have h0 : CellsStamped t (List.replicate cfg.s.toNat ([0] : Bytes)) := fun c hc => Or.inl (List.eq_of_mem_replicate hc)
+          obtain ⟨_, e2⟩ := encDb_stamped cfg lv K1 K2 K3 db 1 _ [] t A T t1 hr t (Suffix.refl _) h0
+          have hT := encDb_table cfg lv K1 K2 K3 db db (fun q hq => hq) 1 _ [] t A T t1 hr t (fun p hp => by cases hp)
+          obtain ⟨_, s3⟩ := fillA_ext _ A t2 A' t3 hr3
+          exact fillT_table cfg lv K2 K3 db _ _ _ T t3 T' _ hr4 t (s3.trans ((cipher_suffix hr2).trans e2)) hT
+
 end SSEPy.Sch.SSE1
